@@ -566,6 +566,28 @@ def _loader(repo, rep):
     rep.check("package_name, spec = spec.split(':', 1)" in t, "R16.3", site,
               "package-relative specs (package:path) are honoured",
               construct="package-spec", where=wh)
+    # the template that is built inherits what was found and where to look
+    # on: its own load: expressions resolve names along the loader's search
+    # path, a package-relative file is read from its package
+    ld0 = repo.func(LD + "load")
+    made = [c for c in ast.walk(ld0.node) if isinstance(c, ast.Call)
+            and src(c.func) == "cls" and isinstance(
+                getattr(c, "_parent", None), ast.Return)]
+    want_kw = {"search_path": "self.search_path",
+               "package_name": "package_name"}
+    okm = bool(made)
+    for c in made:
+        got = {k.arg: src(k.value) for k in c.keywords if k.arg}
+        if any(got.get(k) != v for k, v in want_kw.items()) or not any(
+                k.arg is None and src(k.value) == "self.kwargs"
+                for k in c.keywords) or not (
+                    c.args and src(c.args[0]) == "spec"):
+            okm = False
+    rep.check(okm, "R16.3", ld0.qualname, "the template is built from the "
+              "resolved name, with the loader's search path, the package it "
+              "was found in and the loader's configuration",
+              construct="template-built-with", where=L.where(ld0),
+              detail="; ".join(src(c)[:100] for c in made))
     # 'package:directory' entries of the search path: an entry is one when
     # it is NOT absolute AND contains a colon; it is cut at the FIRST colon
     # into exactly two parts
